@@ -188,14 +188,18 @@ def check_consumers(arr, probe_value, desc, second):
             raise Violation('arrayIndexOf/arrayLastIndexOf give %r, compare-based answer %r' % (got, [exp_first, exp_last]), d, 'indexof')
     # dataSort: stable, ordered by compare on the key (with direction), permutation
     rows = [{'k': v, 'j': (i * 7) % 3, '_i': i} for i, v in enumerate(arr)]
-    sorts = [['k', desc]] if not second else [['j', not desc], ['k', desc]]
+    # `second` selects the shape of the sort specification (0/False: one field; 1/True: two fields; 2-4: a field named twice with
+    # opposite directions - only its first entry can matter -, entries without a direction (ascending))
+    sorts = [[['k', desc]], [['j', not desc], ['k', desc]], [['k', desc], ['j', desc], ['k', not desc]], [['k'], ['j', True], ['k', True]],
+             [['j', desc], ['j', not desc], ['k', desc]]][int(second) % 5]
     out = impl.run_model(ms['dsort'], {'x': list(rows), 'y': sorts})
     ds = out.value
     if out.kind != 'ok' or not isinstance(ds, list) or sorted(map(id, ds)) != sorted(map(id, rows)):
         raise Violation('dataSort result is not a permutation of the rows: %r' % (out,), d, 'datasort-permutation')
     for i in range(len(ds) - 1):
         c = 0
-        for field, dsc in sorts:
+        for entry in sorts:
+            field, dsc = entry[0], (entry[1] if len(entry) > 1 else False)
             c = compare(ds[i][field], ds[i + 1][field])
             c = -c if dsc else c
             if c:
@@ -276,7 +280,7 @@ def run_shard(ctx, spec):
         types = {ref_type(x) for x in arr}
         ctx.case(digest(enc([arr, v, desc, second])), len(types) >= 2 or any(is_container(x) for x in arr),
                  ['consumers', 'len=%d' % min(len(arr), 5)], {'array': arr, 'search': v})
-    run_hypothesis(ctx, prop, [st.one_of(st.lists(elem, max_size=8), related), elem, st.booleans(), st.booleans()],
+    run_hypothesis(ctx, prop, [st.one_of(st.lists(elem, max_size=8), related), elem, st.booleans(), st.integers(0, 4)],
                    spec['n'], salt=spec['k'])
 
 
